@@ -711,12 +711,14 @@ func (v *Protocol) WritePacket(pkt Packet, streamID int) (err error) {
 	m.streamID = uint32(streamID)
 	m.betterCid = pkt.BetterCid()
 
-	if err = v.WriteMessage(m); err != nil {
-		return oe.WithMessage(err, "write message")
-	}
-
+	// Register the request before sending it, for the response may arrive
+	// before the write returns, when another goroutine is reading.
 	if err = v.onPacketWriten(m, pkt); err != nil {
 		return oe.WithMessage(err, "on write packet")
+	}
+
+	if err = v.WriteMessage(m); err != nil {
+		return oe.WithMessage(err, "write message")
 	}
 
 	return
